@@ -6,7 +6,7 @@ set -u
 PATCH="$1"; shift
 WT=/tmp/seedrun-$$
 git -C /repo worktree add --detach "$WT" HEAD >/dev/null 2>&1 || exit 2
-if ! git -C "$WT" apply "$PATCH"; then echo "patch does not apply"; git -C /repo worktree remove --force "$WT"; exit 2; fi
+if ! git -C "$WT" apply "$PATCH" 2>/dev/null && ! git -C "$WT" apply -3 "$PATCH"; then echo "patch does not apply"; git -C /repo worktree remove --force "$WT"; exit 2; fi
 for P in "$@"; do
   VERIF_REPO="$WT" /verif/check "$P" quick > /tmp/seedrun-$$-$P.out 2>&1
   echo "== $P rc=$? $(grep -c '^VIOLATION' /tmp/seedrun-$$-$P.out) violation line(s)"
